@@ -158,6 +158,11 @@ def replay_object_history(hist):
                 r['ok'] = ok
                 if ok:
                     r.update(rname=str(q.name), roct=int(q.octave))
+                    try:                       # the result belongs to the caller: it is moved elsewhere after it was recorded
+                        q.octave = int(q.octave) + 3
+                        q.name = 'G--'
+                    except Exception:  # noqa
+                        pass
         except Exception as e:  # noqa  an exception of a setter / getter is an observation
             r['ok'] = False
             r['exc'] = type(e).__name__
